@@ -20,6 +20,8 @@ pub enum Ev {
     Update,
     /// UPDATE OF (column index)
     UpdateOf(usize),
+    /// UPDATE OF (a, b)
+    UpdateOfAB,
     Delete,
 }
 
@@ -157,6 +159,7 @@ impl Trig {
             Ev::Insert => "INSERT".to_string(),
             Ev::Update => "UPDATE".to_string(),
             Ev::UpdateOf(c) => format!("UPDATE OF ({})", COLS[c]),
+            Ev::UpdateOfAB => "UPDATE OF (a, b)".to_string(),
             Ev::Delete => "DELETE".to_string(),
         };
         let when = match &self.when {
@@ -192,7 +195,7 @@ impl Trig {
             match self.ev {
                 Ev::Insert => "insert",
                 Ev::Update => "update",
-                Ev::UpdateOf(_) => "update_of",
+                Ev::UpdateOf(_) | Ev::UpdateOfAB => "update_of",
                 Ev::Delete => "delete",
             },
             if self.row { "row" } else { "statement" },
@@ -284,6 +287,7 @@ fn expect_for(trigs: &[Trig], stmt: &Dml, t: &[TRow]) -> (Vec<TRow>, Expect, usi
         let ev_match = match (tr.ev, ev_kind) {
             (Ev::Insert, 0) | (Ev::Update, 1) | (Ev::Delete, 2) => true,
             (Ev::UpdateOf(c), 1) => set_cols.contains(&c),
+            (Ev::UpdateOfAB, 1) => set_cols.contains(&1) || set_cols.contains(&2),
             _ => false,
         };
         if !ev_match {
@@ -301,6 +305,8 @@ fn expect_for(trigs: &[Trig], stmt: &Dml, t: &[TRow]) -> (Vec<TRow>, Expect, usi
             // (assignment) and the engine (value change) readings differ: either is accepted
             let optional = match tr.ev {
                 Ev::UpdateOf(c) => old.unwrap()[c] == new.unwrap()[c],
+                // fires for certain when a listed, assigned column changes its value
+                Ev::UpdateOfAB => !(1..=2).any(|c| set_cols.contains(&c) && old.unwrap()[c] != new.unwrap()[c]),
                 _ => false,
             };
             match &tr.action {
@@ -481,7 +487,13 @@ impl Check for C34 {
             let ev = match t.weighted(&[3, 3, 2, 3]) {
                 0 => Ev::Insert,
                 1 => Ev::Update,
-                2 if !no_upd_of => Ev::UpdateOf(1 + t.below(2)),
+                2 if !no_upd_of => {
+                    if t.chance(1, 3) {
+                        Ev::UpdateOfAB
+                    } else {
+                        Ev::UpdateOf(1 + t.below(2))
+                    }
+                }
                 2 => Ev::Update,
                 _ => Ev::Delete,
             };
